@@ -166,7 +166,12 @@ class Run:
             elif a["kind"] == "sub":
                 sub.subscribe_eventgroup(self.egs[a["eg"]], SERVERS[a["srv"]])
             else:
-                sub.stop_subscribe_eventgroup(self.egs[a["eg"]], SERVERS[a["srv"]])
+                # the stop names the eventgroup by an equal description, not necessarily by the very object that was subscribed
+                # (the library's own auto-subscribe helper builds a fresh one with for_service() every time)
+                import dataclasses
+                self.n_stops = getattr(self, "n_stops", 0) + 1
+                eg = self.egs[a["eg"]]
+                sub.stop_subscribe_eventgroup(dataclasses.replace(eg) if self.n_stops % 2 else eg, SERVERS[a["srv"]])
         except Exception as exc:
             self.raised.append((a, repr(exc)))
 
